@@ -27,7 +27,7 @@ func (c *Ctx) pickVersionPolicy() int { return []int{polV3, polV2, polV2 | polV3
 
 func dataMutations(c *Ctx, s *Sys, from int) []Mut {
 	ms := []Mut{MFlipMac(), MFlipEnc(), MCtr(1 + c.R.Intn(1000)), MSk(c.R.Intn(6)), MRk(c.R.Intn(6)), MFlag(1 + c.R.Intn(3)), MY(), MTruncate(),
-		MVersion(2 + c.R.Intn(2))}
+		MVersion(2 + c.R.Intn(2)), MNonCanon()}
 	ms = append(ms, MTag(true, c.R.Intn(5)), MTag(false, c.R.Intn(5)))
 	for w := 1; w <= 2; w++ {
 		if n := len(s.disclosed[w]); n > 0 {
@@ -343,7 +343,7 @@ func genC06(c *Ctx) {
 		}
 		// a throw-away system to build mutation objects (they are stateless apart from s.disclosed)
 		proto := newSys([]int{pol, pol}, seed)
-		muts := []Mut{MFlipMac(), MFlipEnc(), MCtr(500), MSk(9), MRk(9), MTruncate(), MTag(true, 1), MTag(false, 4), MTag(true, 4), MY(), MVersion(5 - versionOf(pol))}
+		muts := []Mut{MFlipMac(), MFlipEnc(), MCtr(500), MSk(9), MRk(9), MTruncate(), MTag(true, 1), MTag(false, 4), MTag(true, 4), MY(), MVersion(5 - versionOf(pol)), MNonCanon()}
 		_ = proto
 		pos := c.R.Intn(len(script))
 		mi := c.R.Intn(len(muts))
